@@ -61,3 +61,29 @@ Theorem C10_source_ValidateDecodedLogoutRequest_is_the_model : forall cfg now r,
   G_ValidateDecodedLogoutRequest cfg now r = PVal (validate_logout_request cfg r).
 Proof. exact G_ValidateDecodedLogoutRequest_eq. Qed.
 Print Assumptions C10_source_ValidateDecodedLogoutRequest_is_the_model.
+
+(* source tie at the entry points: the TRANSLATED bodies of ValidateEncodedLogoutResponsePOST / ValidateEncodedLogoutRequestPOST *)
+From V Require Import Generated Keys GenPreludeD GenPreludeT GenTree P_GenTree P_GenTreeProps.
+Theorem C10_source_logout_entry_points_are_the_model : forall parse dsig cfg now enc,
+  norm_pm (G_ValidateEncodedLogoutResponsePOST parse dsig cfg now enc)
+  = PVal (norm_res (entry parse enc (validate_logout_response_tree dsig cfg))) /\
+  norm_pm (G_ValidateEncodedLogoutRequestPOST parse dsig cfg now enc)
+  = PVal (norm_res (entry parse enc (validate_logout_request_tree dsig cfg))).
+Proof. exact (fun p d c n e => conj (G_ValidateEncodedLogoutResponsePOST_is_model p d c n e) (G_ValidateEncodedLogoutRequestPOST_is_model p d c n e)). Qed.
+Print Assumptions C10_source_logout_entry_points_are_the_model.
+
+Theorem C10_source_logout_response_accept : forall parse dsig cfg now enc r,
+  G_ValidateEncodedLogoutResponsePOST parse dsig cfg now enc = PVal (Ok (Some r)) ->
+  exists raw root el flag r0, b64_decode enc = Ok raw /\ parse raw = Ok root /\
+    logout_signature_step dsig cfg root = Ok (el, flag) /\ unmarshal_logout_response el = Ok r0 /\ r = lr_with_flag r0 flag /\
+    LogoutResponseOK cfg r.
+Proof. exact source_logout_response_accept. Qed.
+Print Assumptions C10_source_logout_response_accept.
+
+Theorem C10_source_logout_request_accept : forall parse dsig cfg now enc r,
+  G_ValidateEncodedLogoutRequestPOST parse dsig cfg now enc = PVal (Ok (Some r)) ->
+  exists raw root el flag r0, b64_decode enc = Ok raw /\ parse raw = Ok root /\
+    logout_signature_step dsig cfg root = Ok (el, flag) /\ unmarshal_logout_request el = Ok r0 /\ r = lq_with_flag r0 flag /\
+    LogoutRequestOK cfg r.
+Proof. exact source_logout_request_accept. Qed.
+Print Assumptions C10_source_logout_request_accept.
